@@ -9,6 +9,11 @@ from harness.props.c02 import gen_cfg
 
 TARGETS = ["theories/Props/C10.vo", "theories/Props/C07.vo", "theories/Proofs/GenEq_Crop.vo"]
 GENEQ = {"theories/Proofs/GenEq_Crop.vo": "Crop"}
+# units added to the cone after round 2 of the seeded changes (a refused / changed unit must be noticed by this check too)
+TARGETS = TARGETS + ["theories/Proofs/GenEq_Backend.vo"]
+GENEQ = dict(GENEQ, **{"theories/Proofs/GenEq_Backend.vo": "Backend"})
+TARGETS = TARGETS + ["theories/Proofs/GenEq_MatcherLoop.vo"]
+GENEQ = dict(GENEQ, **{"theories/Proofs/GenEq_MatcherLoop.vo": "MatcherLoop"})
 ALLOWED_AXIOMS = ["ClassicalDedekindReals.sig_forall_dec", "ClassicalDedekindReals.sig_not_dec", "FunctionalExtensionality.functional_extensionality_dep"]
 RULE = ("metamorphic on evaluate(): x vs g(x) for g in {zero padding at random offsets, cropping shared empty margins, every axis flip, every axis "
         "permutation, Fortran-ordered / negatively strided / non-contiguous views of the same data}; all input types; compared when the matching is "
